@@ -1,7 +1,7 @@
 """Single source for MANIFEST.json (bin/mkmanifest)."""
 
 HOOK_COMMITS = ["673019b", "625d9ba", "1d37b76", "2f6eef4", "9ec354b"]
-FIX_COMMITS = ["12c9092", "3e9b6da", "a55c868", "5489af8", "06cfd24", "dc51f1b", "72a27af", "81e61a6", "9f27a11"]   # filled by bin/mkmanifest callers: /repo commits that add guarded hooks
+FIX_COMMITS = ["12c9092", "3e9b6da", "a55c868", "5489af8", "06cfd24", "dc51f1b", "72a27af", "81e61a6", "9f27a11", "fea871f"]   # filled by bin/mkmanifest callers: /repo commits that add guarded hooks
 
 NOTES = ("All checks: bin/check <id>. Exit 0 = held, 1 = VIOLATION line + replay file, 2 = tool error (never a verdict). "
          "Specs under spec/<family>/, harness under harness/ (path deps on /repo; rebuilt by every check). "
@@ -156,6 +156,10 @@ CHECKS["C29"] = dict(engine="tlc+vh", level="model_checking", ref="4.16", techni
 CHECKS["C23"] = dict(engine="tlc+vh", level="exploration", ref="4.12", technique="TLA+ spec (Reload.tla): reload as a function on abstract engine state (unchanged streams keep state, changed streams become fresh); TLC generates (edit class, event stream, reload position) cases over 21 edit classes; each replayed on the real Engine::reload and compared with a never-reloaded twin (identity / untouched streams) or a fresh engine of the new program on the suffix (changed streams)",
                      text="Differential against real engines: for identity reloads and for streams an edit does not touch, the outputs after the reload point equal those of an engine that was never reloaded; for changed or renamed streams they equal those of a freshly loaded engine of the new program fed only the later events. Covers count/sliding/tumbling/partitioned windows, filters, sequences, Kleene, joins, merges, derived streams; threshold, window size, emit, added/removed operations, added sequence steps, merge inputs, renames.",
                      note="Trusted: the two oracle engines (the property is an equivalence of executions). Bounded: 21 hand-written edit classes, streams of 8 (thorough 11) events over 3 types, one reload per run.")
+
+CHECKS["C39"] = dict(engine="tlc+vh", level="model_checking", ref="4.19", technique="TLA+ spec (ConnInject.tla): character-level model of to_vpl_declaration's rendering and of the grammar's config_value lexer; TLC checks Lex(Emit(v)) = v against a closed form on every value over a 16-character alphabet and emits each (value, pipeline template) as a case; every case goes through the real to_vpl_declaration, inject_connectors, parser and Engine::load",
+                     text="Exhaustive over values up to length 3 (thorough 4) plus a 52-word list (inf/nan/exponents/leading zeros/i64 and u64 boundaries/unicode/quotes/backslashes), in 8 pipeline templates (from, to, both, inline-declared, unknown connector, reference only in a comment, rich program, client_id_mode). Checked: the injected source parses; each injected declaration has exactly the stored parameters (AST and the runtime's ConnectorConfig); every used, stored, undeclared connector is injected; inline declarations and all other statements are unchanged.",
+                     note="Trusted: the parser and the AST's serde form (spans stripped) as the meaning of 'the rest of the pipeline'. Bounded: parameter names are plain identifiers; two connectors.")
 
 NOT_APPLICABLE = {
     "C41": "parser totality over arbitrary strings: no state/transition system to specify; a TLA+ model would only enumerate token strings (fuzzing under another name)",
